@@ -32,7 +32,7 @@ func emptiness(v interface{}) string {
 }
 
 func c07(r *mon.Run) {
-	r.Rule = "exhaustive: every ordered pair of a 24-value universe (all JSON types, every emptiness class, one level of nesting) x the 8 binary operators, operands supplied as literals, as document fields and mixed; ! and filter conditions [?@] / [?a] over the universe; short-circuit probes (x || E, x && E for every x and every error kind E: the right operand must be evaluated exactly when needed); " +
+	r.Rule = "exhaustive: every ordered pair of a 24-value universe (all JSON types, every emptiness class, one level of nesting) x the 8 binary operators, operands supplied as literals, as document fields and mixed; ! and filter conditions [?@] / [?a] over the universe; short-circuit probes (x || E, x && E for every x and every error kind E: the right operand must be evaluated exactly when needed), also as filter conditions evaluated per element; " +
 		"every operator tree of depth <= 2 over 6 representative operands (depth 3 sampled in thorough); deep equality over every ordered pair of a 56-value universe of small nested arrays and objects (different key sets of equal size, null members, element order, nesting), as ==, !=, inside a filter condition and through contains(); seeded random nestings inside filter conditions. Oracle: ref truth table / deep equality / numeric ordering. Non-trivial = distinct (expression, document); the (operator, left type, right type, emptiness) matrix is reported."
 	r.Exhaustive = true
 	r.Floor = 3000
@@ -108,6 +108,45 @@ func c07(r *mon.Run) {
 		gen.Chain(gen.LitJSON("[1,2]"), gen.StSliceS("", "", "0")), // zero step
 		gen.Func("sort_by", gen.LitJSON(`[{"a":1},{"a":"x"}]`), gen.ExpRef(gen.Field("a"))),
 	}
+	// the same inside filter conditions: for every element the right operand may only be evaluated when needed
+	scf := mon.Workload{Name: "short-circuit-in-filters", N: n * len(bads) * 6,
+		Do: func(i int, t *mon.Tally) {
+			k := i
+			form := k % 6
+			k /= 6
+			bad := bads[k%len(bads)]
+			x := k / len(bads)
+			var cond *gen.Expr
+			switch form {
+			case 0:
+				cond = gen.Or(gen.Field("a"), bad)
+			case 1:
+				cond = gen.And(gen.Field("a"), bad)
+			case 2:
+				cond = gen.Not(gen.Or(gen.Field("a"), bad))
+			case 3:
+				cond = gen.Or(gen.And(gen.Not(gen.Field("a")), bad), gen.Field("i"))
+			case 4:
+				cond = gen.And(gen.Cmp("==", gen.Func("type", gen.Field("a")), gen.Raw("string")), gen.Func("starts_with", gen.Field("a"), gen.Raw("a")))
+			default:
+				cond = gen.Paren(gen.Or(gen.Field("a"), bad))
+			}
+			// every element decides the same way (all true-like or all false-like), plus mixed arrays
+			arr := []interface{}{map[string]interface{}{"a": us[x], "i": float64(0)}, map[string]interface{}{"a": us[x], "i": float64(1)}}
+			if form == 4 {
+				arr = []interface{}{map[string]interface{}{"a": us[x]}, map[string]interface{}{"a": "apple"}, map[string]interface{}{"a": us[(x+7)%n]}}
+			}
+			tree := gen.Chain(nil, gen.StFilter(cond), gen.StField("i"))
+			expr := gen.Spell(tree)
+			cx := &caseCtx{r, t, "short-circuit-in-filters", i}
+			res, _, _ := cx.runBoth(tree, expr, arr)
+			if isErr(res) {
+				t.Count("filter: right operand needed: error expected")
+			} else {
+				t.Count("filter: right operand short-circuited: value expected")
+			}
+			t.Nontrivial("scf:" + expr + ref.Canon(arr))
+		}}
 	sc := mon.Workload{Name: "short-circuit", N: n * len(bads) * 4,
 		Do: func(i int, t *mon.Tally) {
 			k := i
@@ -218,7 +257,7 @@ func c07(r *mon.Run) {
 			cx.runOne(tree, expr, doc)
 			t.NontrivialDistinct(1)
 		}}
-	ws := []mon.Workload{pairs, unary, sc, trees, rnd, eqw}
+	ws := []mon.Workload{pairs, unary, sc, scf, trees, rnd, eqw}
 	if r.Tier == "thorough" {
 		d2m := gen.Materialize(gen.Union(gen.Map(d1, un...), gen.Product(reps, d1, bin...)))
 		d3 := gen.Product(d2m, d1, bin...)
